@@ -12,6 +12,7 @@ import (
 	"time"
 
 	"github.com/KevoDB/kevo/pkg/common/iterator"
+	"github.com/KevoDB/kevo/pkg/config"
 	"github.com/KevoDB/kevo/pkg/engine"
 	"github.com/KevoDB/kevo/pkg/engine/interfaces"
 	"github.com/KevoDB/kevo/pkg/transaction"
@@ -30,7 +31,7 @@ func init() {
 		Rule: "binary built with -race (which also enables checkptr). 8-24 goroutines call every public entry point of the engine facade - the method set is taken by reflection from " +
 			"*EngineFacade so that new entry points are exercised with synthesised arguments (Close and SetReadOnly excluded) - plus read-only and read-write transactions with iterators, the " +
 			"transaction registry (begin with short deadlines, get, remove, stale sweep, connection cleanup), batch writes, explicit flush, compaction, range compaction, statistics and the log's " +
-			"sequence/retention entry points, on an engine with 1 byte .. 4KB memtables and a 1s compaction interval, with PRNG yields at the hook sites. Every 7th case instead keeps an unreadable table file in the table directory during two background compaction ticks (failing cycles), removes it, and requires TriggerCompaction, CompactRange, FlushImMemTables and Close to return. Race reports are read from the detector's " +
+			"sequence/retention entry points, on an engine with 1 byte .. 4KB memtables and a 1s compaction interval, with PRNG yields at the hook sites. Every 7th case instead keeps an unreadable table file in the table directory during two background compaction ticks (failing cycles), removes it, and requires TriggerCompaction, CompactRange, FlushImMemTables and Close to return. Every 14th case reopens a database whose log rebuilds into several memtables (stored memtable size lowered between the two opens), so that the storage manager's 10-second maintenance tick finds immutable tables nobody signalled, runs readers across that tick and requires GetStats, Put, Get, FlushImMemTables, the readers and Close to return afterwards. Race reports are read from the detector's " +
 			"log after every case and de-duplicated by the sorted pair of the first kevo frames; any report, fatal error, panic or non-zero worker exit is a violation with the report as witness; " +
 			"a case that does not finish within 120s is a hang violation with the goroutine dump as witness. distinct = hash(config, goroutines, seed); non-trivial = >= 1 flush and >= 1 " +
 			"compaction ran while clients were active and every reflected method was called",
@@ -135,9 +136,118 @@ func c07FailedCycle(c *core.Ctx, res *core.Result) {
 	res.Nontrivial = true
 }
 
+// c07TickBacklog: the storage manager's 10-second maintenance tick is the only thing that flushes immutable
+// memtables nobody signalled - those rebuilt from the log at start-up. A database whose log holds more than
+// one memtable of data (written with a large memtable, reopened after the stored memtable size was lowered
+// the documented way) is opened, readers run across the first tick, and afterwards every call must return.
+func c07TickBacklog(c *core.Ctx, res *core.Result) {
+	r := c.Rand
+	dir := c.Dir + "/db"
+	cfg := kv.Cfg{MemTableSize: 1 << 20, MaxMemTables: r.Range(2, 4), SyncMode: 0, CompactSecs: []int64{1, 3600}[r.Intn(2)]}
+	eng, err := kv.Open(dir, cfg)
+	if err != nil {
+		res.Violate("open_error", err.Error(), nil)
+		return
+	}
+	n := r.Range(60, 140)
+	for i := 0; i < n; i++ {
+		eng.Put([]byte(fmt.Sprintf("t%03d", i)), bytes.Repeat([]byte{'y'}, r.Range(200, 400)))
+	}
+	eng.Close()
+	sc, err := config.LoadConfigFromManifest(dir)
+	if err != nil {
+		res.Violate("open_error", "LoadConfigFromManifest: "+err.Error(), nil)
+		return
+	}
+	small := []int64{2048, 4096, 8192}[r.Intn(3)]
+	sc.Update(func(c2 *config.Config) { c2.MemTableSize = small })
+	if err := sc.SaveManifest(dir); err != nil {
+		res.Violate("open_error", "SaveManifest: "+err.Error(), nil)
+		return
+	}
+	t0 := time.Now()
+	eng, err = engine.NewEngineFacade(dir)
+	if err != nil {
+		res.Violate("open_error", "reopen: "+err.Error(), nil)
+		return
+	}
+	backlog, _ := eng.GetStats()["storage_immutable_memtable_count"].(int)
+	feat := map[string]string{"kind": "tick_backlog"}
+	hung := false
+	step := func(name string, f func()) bool {
+		done := make(chan struct{})
+		go func() { f(); close(done) }()
+		select {
+		case <-done:
+			return true
+		case <-time.After(20 * time.Second):
+			hung = true
+			res.Violate("hang", fmt.Sprintf("database reopened with %d immutable memtables rebuilt from the log (nothing signals a flush for those; the storage manager's 10s maintenance tick finds them): %.1fs after the open %s did not return within 20s\n%s", backlog, time.Since(t0).Seconds()-20, name, blockedKevoStacks()), feat)
+			return false
+		}
+	}
+	var stop atomic.Bool
+	var calls atomic.Int64
+	readersDone := make(chan struct{})
+	var wg sync.WaitGroup
+	for g := 0; g < 4; g++ {
+		wg.Add(1)
+		rr := r.Derive(uint64(g + 1))
+		go func() {
+			defer wg.Done()
+			for !stop.Load() {
+				switch rr.Intn(3) {
+				case 0:
+					eng.Get([]byte(fmt.Sprintf("t%03d", rr.Intn(n))))
+				case 1:
+					eng.GetStats()
+				case 2:
+					if it, err := eng.GetIterator(); err == nil {
+						drainIt(it, 20)
+					}
+				}
+				calls.Add(1)
+				time.Sleep(500 * time.Microsecond)
+			}
+		}()
+	}
+	go func() { wg.Wait(); close(readersDone) }()
+	// only reads until the first tick has been served: a write could signal a flush that empties the backlog first
+	for time.Since(t0) < 11500*time.Millisecond {
+		time.Sleep(50 * time.Millisecond)
+	}
+	after := -1
+	ok := step("GetStats", func() { after, _ = eng.GetStats()["storage_immutable_memtable_count"].(int) }) &&
+		step("Put", func() { eng.Put([]byte("t-after-tick"), []byte("z")) }) &&
+		step("Get", func() { eng.Get([]byte("t000")) }) &&
+		step("FlushImMemTables", func() { eng.FlushImMemTables() })
+	stop.Store(true)
+	if ok {
+		ok = step("the reader goroutines (Get/GetStats/GetIterator)", func() { <-readersDone })
+	}
+	if ok {
+		step("Close", func() { eng.Close() })
+	}
+	if !hung {
+		res.Count("tick_backlog_scenarios", 1)
+		res.Count("tick_backlog_tables_at_open", int64(backlog))
+		if after == 0 && backlog > 0 {
+			res.Count("tick_backlog_flushed_by_tick", 1)
+			res.Count("flushes", 1)
+		}
+	}
+	res.Count("calls", calls.Load())
+	res.Sig = core.Sig("tickbacklog", cfg.String(), fmt.Sprint(small, n))
+	res.Nontrivial = backlog > 0
+}
+
 func runC07(c *core.Ctx, res *core.Result) {
 	if c.Idx%7 == 6 {
 		c07FailedCycle(c, res)
+		return
+	}
+	if c.Idx%14 == 3 {
+		c07TickBacklog(c, res)
 		return
 	}
 	r := c.Rand
